@@ -366,7 +366,8 @@ def gen_ops_deep(rng, n, ev_cs, span_cs, lifo=False):
         elif r < 0.90 and entered:
             h = entered.pop(-1 if lifo or rng.random() < 0.85 else rng.randrange(len(entered)))
             ops.append(["X", h])
-        elif live:
+        elif live and (not lifo or any(h not in entered for h in live)):
+            # (a handle dropped while its span is entered can never exit it: every later exit of an outer span is out of order)
             cand = [h for h in live if h not in entered] or live
             h = rng.choice(cand)
             live.remove(h)
@@ -375,6 +376,32 @@ def gen_ops_deep(rng, n, ev_cs, span_cs, lifo=False):
         else:
             ops.append(["E", rng.choice(ev_cs)])
     return ops
+
+
+def well_nested(ops):
+    """is the history well nested per thread: every exit is of the innermost entered span, no span is entered twice, exited
+    without being entered, or dropped while entered?  (What an EnvFilter's span directives are specified for - property C11 -
+    and what its scope stack, which pops on any exit, needs.)"""
+    nh, entered = {}, {}
+    for op in ops:
+        code, arg = op[0], op[1]
+        t = op[2] if len(op) > 2 else 0
+        ent = entered.setdefault(t, [])
+        if code == "S":
+            nh[t] = nh.get(t, 0) + 1
+        elif code == "N":
+            if arg in ent:
+                return False
+            if arg < nh.get(t, 0):
+                ent.append(arg)
+        elif code == "X":
+            if not ent or ent[-1] != arg:
+                return False
+            ent.pop()
+        elif code == "D":
+            if arg in ent:
+                return False
+    return True
 
 
 def gen_case(rng, idx, kind):
@@ -492,6 +519,7 @@ def gen_case(rng, idx, kind):
     n = rng.choice([6, 10, 16, 24, 40]) if kind not in ("agree", "above", "env") else rng.choice([12, 20, 30, 40])
     if kind in ("deep", "env"):
         ops = gen_ops_deep(rng, n, ev_cs, span_cs, lifo=(kind == "env"))
+        assert kind != "env" or well_nested(ops)
     else:
         ops = gen_ops(rng, n, ev_cs, span_cs, probe_cs, malformed=(rng.random() < 0.25))
     return {"id": idx, "kind": kind, "stack": stack, "ops": ops}
@@ -1133,6 +1161,10 @@ def run(ctx, only=None, release=None):
                 rep.violation("building the stack panicked: %s [%s]" % (impl["build_panic"], prof), {"case": case, "profile": prof})
                 continue
             two = "stack2" in case
+            if has_env(case) and not well_nested(case["ops"]):
+                # an EnvFilter's span directives are specified for well-nested histories only (C11); its scope is a plain stack
+                rep.count("outside-class(EnvFilter on a history that is not well nested: not judged)")
+                continue
             if two:
                 # each thread is judged on its own: its stack, its operations, what its own stack logged
                 views = [project(case, impl, t) for t in (0, 1)]
